@@ -237,9 +237,10 @@ def check_idx(ctx, case, o):
                           (case["kind"], case["probes"][i], n, case["w"], got, e), case, o)
     for i, (e, got) in enumerate(zip(case.get("big_exp", []), o.get("big", []))):
         if isinstance(got, dict) and got.get("outcome") == "panic":
-            # a C01 matter in the debug profile (BUILDING rule 3); the release profile wraps and is judged below
-            ctx.drift.append({"where": "idx.%s.index-overflow" % case["kind"], "index": case["big_probes"][i],
-                              "gimli": "panic %s at %s" % (got.get("msg"), got.get("loc")), "note": "C01: index * size overflows"})
+            # the property demands an error for an index beyond the end (fixed in gimli by 77caf5a: checked_mul)
+            ctx.violation("idx:%s:index-overflow:panic" % case["kind"],
+                          "%s index %s (far beyond the table): panic %s at %s instead of an error" %
+                          (case["kind"], case["big_probes"][i], got.get("msg"), got.get("loc")), case, o)
         elif mismatch(e, got, "x"):
             ctx.violation("idx:%s:index-overflow:wrapped" % case["kind"],
                           "%s index %s (far beyond a table of %d entries, width %d) returned %s instead of an error" %
@@ -326,11 +327,11 @@ def validate_lookup_trace(ctx, trace, tag):
             detail = ":" + str(res.get("outcome"))
         elif "err" in res:
             detail = ":err"
-        brief = {k: v for k, v in ev.items() if k in ("ev", "id", "h", "i", "b", "row", "present", "res", "kind")}
+        brief = {k: v for k, v in ev.items() if k in ("ev", "id", "h", "i", "b", "row", "present", "res", "kind", "file", "stroff")}
         ctx.violation("trace:%s%s" % (ev["ev"], detail),
                       "event %d of %s is not explainable by Lookup.tla (lookup differs from the scan of the logged table, "
                       "or the logged table does not re-encode to the bytes): %s" % (idx, tag, json.dumps(brief)[:500]), brief, None)
-        if ev["ev"] in ("IndexTable", "NamesTable", "Table"):
+        if ev["ev"] in ("IndexTable", "NamesTable", "Table", "CorpusIndex", "CorpusNames", "CorpusTable"):
             return accepted + idx - 1
         del lines[idx - 1]
     return accepted
@@ -359,6 +360,12 @@ def run(ctx):
     rounds = [(ctx.seed, 10)] if q else [(ctx.seed + i, 12) for i in range(3)]
     traces = [(ctx.record(bins["dev"], "lookup-%d.ndjson" % sd, ["--seed", sd, "--n", 1, "--log2", k]), "seed%d" % sd)
               for sd, k in rounds]
+    corpus = os.path.join(os.path.dirname(SPEC), "corpus")
+    if os.path.isdir(corpus):
+        # real gcc/clang sections (inputs only): judged by LookupTrace through the spec's layout decoders
+        traces.append((ctx.record(bins["dev"], "lookup-corpus.ndjson", ["--seed", ctx.seed, "--corpus", corpus]), "corpus"))
+    else:
+        ctx.assumptions.append("corpus directory absent: no real-section traces were validated")
 
     def gjob(j):
         tag, module, cfg = j
@@ -399,6 +406,8 @@ def run(ctx):
         "aranges: a (0,0) tuple may be skipped (gimli) or end the set (standard); iteration may continue or stop after an overflowing tuple",
         "error kinds are compared as drift only",
         "trace validation uses tables built by the harness with the standard's construction; the logged table is re-encoded by the spec and must equal the bytes",
+        "corpus sections (gcc/clang, /verif/corpus) carry no hint: the table is read off the bytes by the spec's layout decoders (Enc(Dec(bytes)) = bytes is checked); the name-index entry pool of corpus sections is not decoded",
+        "full-minus-one index tables are recorded only with <= 256 slots (every miss walks the whole table); larger recorded tables are loaded up to 90 %",
         "name-index chains in recorded tables are kept short (bucket_count >= names/8) except on tables of <= 64 names",
     ]
     ctx.finish("model_checking",
